@@ -232,6 +232,18 @@ func (p *Path) callFunction(fn *ssa.Function, args []Value, bindings []Value) (r
 	if rd, ok := p.eng.redirects[name]; ok {
 		fn = rd
 	}
+	// generated protobuf varint-size helpers `sovXxx(x uint64) int` (= (bits.Len64(x|1)+6)/7):
+	// exact for constants, otherwise an arbitrary value in 1..10 (sizes are only ever compared
+	// with zero by the code under test)
+	if strings.HasPrefix(fn.Name(), "sov") && fn.Signature.Params().Len() == 1 && fn.Signature.Results().Len() == 1 && len(args) == 1 {
+		if xi, ok := args[0].(VInt); ok {
+			if c, isC := xi.T.ConstInt(); isC {
+				n := (new(big.Int).Or(c, bi(1)).BitLen() + 6) / 7
+				return VInt{IntC64(int64(n))}
+			}
+			return VInt{p.freshInt("sov", bi(1), bi(10))}
+		}
+	}
 	// SSA bodies of dependency packages are built lazily; never look at fn.Blocks before the
 	// owning package is known to be completely built (another worker may be building it)
 	p.eng.ensureBuilt(fn)
